@@ -93,6 +93,10 @@ def fits (cap used : Nat → Nat) (ch : List Nat) (amt : Nat) : Bool := ch.all (
 def charge (used : Nat → Nat) (ch : List Nat) (amt : Nat) : Nat → Nat :=
   fun x => if x ∈ ch then used x + amt else used x
 
+/-- `effectiveCap()`: the smallest capacity among a limiter (`own`) and its ancestors (its chain) — no more than that can
+    ever be granted to a single request -/
+def effCap (cap : Nat → Nat) (ch : List Nat) (own : Nat) : Nat := ch.foldl (fun m x => min m (cap x)) own
+
 /-- result of the service loop of one tick -/
 structure Svc where
   used : Nat → Nat
@@ -108,7 +112,7 @@ def service (cap : Nat → Nat) (chain : Nat → List Nat) (closed : Nat → Boo
     if closed r.lim then
       let t := service cap chain closed period used rs
       { t with answers := (r.id, .errClosed) :: t.answers }
-    else if r.amt > cap r.lim then
+    else if r.amt > effCap cap (chain r.lim) (cap r.lim) then
       let t := service cap chain closed period used rs
       { t with answers := (r.id, .errCap) :: t.answers }
     else if used 0 < cap 0 ∧ fits cap used (chain r.lim) r.amt = true then
@@ -189,17 +193,18 @@ inductive Step : S → S → Prop
   | apiLock (s : S) (h : s.holder = .free) : Step s (lockApi s)
   -- … and executes its body and unlocks: a read (`Cap`, `LastUsed`, `Closed`), `New`/`Close` on a closed limiter, …
   | apiRead (s : S) (h : s.holder = .api) : Step s (unlock s)
-  -- … the five outcomes of `Use` under the lock (closed is checked first, for every non-negative amount), …
+  -- … the five outcomes of `Use` under the lock (closed is checked first, for every non-negative amount; too big =
+  -- above the smallest capacity along the chain, commit 8ceae61), …
   | useClosed (s : S) (l : Nat) (hl : l < s.n) (h0 : s.holder = .api) (h : s.closed l = true) :
       Step s (unlock (answer s .errClosed))
   | useZero (s : S) (l : Nat) (hl : l < s.n) (h0 : s.holder = .api) (h1 : s.closed l = false) :
       Step s (unlock (doUseZero s l))
   | useTooBig (s : S) (l amt : Nat) (hl : l < s.n) (h0 : s.holder = .api) (h1 : s.closed l = false)
-      (h2 : amt > s.cap l) : Step s (unlock (answer s .errCap))
+      (h2 : amt > effCap s.cap (s.chain l) (s.cap l)) : Step s (unlock (answer s .errCap))
   | useGrant (s : S) (l amt : Nat) (hl : l < s.n) (ha : 0 < amt) (h0 : s.holder = .api) (h1 : s.closed l = false)
-      (h2 : amt ≤ s.cap l) (h3 : fits s.cap s.used (s.chain l) amt = true) : Step s (unlock (doUseGrant s l amt))
+      (h2 : amt ≤ effCap s.cap (s.chain l) (s.cap l)) (h3 : fits s.cap s.used (s.chain l) amt = true) : Step s (unlock (doUseGrant s l amt))
   | useWait (s : S) (l amt : Nat) (hl : l < s.n) (ha : 0 < amt) (h0 : s.holder = .api) (h1 : s.closed l = false)
-      (h2 : amt ≤ s.cap l) (h3 : fits s.cap s.used (s.chain l) amt = false) : Step s (unlock (doUseWait s l amt))
+      (h2 : amt ≤ effCap s.cap (s.chain l) (s.cap l)) (h3 : fits s.cap s.used (s.chain l) amt = false) : Step s (unlock (doUseWait s l amt))
   -- … `New`, child `Close`, `SetCap`
   | newChild (s : S) (p c : Nat) (hp : p < s.n) (h0 : s.holder = .api) (h1 : s.closed p = false) :
       Step s (unlock (doNewChild s p c))
@@ -268,7 +273,7 @@ def micro (s : S) : Micro → S
     if l < s.n ∧ s.holder = .api then
       if s.closed l then unlock (answer s .errClosed)
       else if amt = 0 then unlock (doUseZero s l)
-      else if amt > s.cap l then unlock (answer s .errCap)
+      else if amt > effCap s.cap (s.chain l) (s.cap l) then unlock (answer s .errCap)
       else if fits s.cap s.used (s.chain l) amt then unlock (doUseGrant s l amt)
       else unlock (doUseWait s l amt)
     else s
@@ -405,7 +410,7 @@ theorem exec_steps (s : S) (op : Op) : Steps s (exec s op) := runMicros_steps s 
 
 /-- `Cap(applyParentCaps)` -/
 def capOf (s : S) (l : Nat) (apply : Bool) : Nat :=
-  if apply then (s.chain l).foldl (fun m x => min m (s.cap x)) (s.cap l) else s.cap l
+  if apply then effCap s.cap (s.chain l) (s.cap l) else s.cap l
 
 def run (s : S) (ops : List Op) : S := ops.foldl exec s
 
